@@ -17,9 +17,9 @@ namespace F64
 
 /-! ## basic facts -/
 
-theorem unit_eq : unit = 2 ^ 1074 := pow_core_eq 2 1074
+theorem unit_eq : unit = 2 ^ 1074 := by unfold unit; rw [pow_core_eq 2 1074]
 
-theorem unit_pos : 0 < unit := by rw [unit_eq]; exact Nat.two_pow_pos _
+theorem unit_pos : 0 < unit := by unfold unit; exact Nat.two_pow_pos 1074
 
 theorem toInt_fin (s : Bool) (n : Nat) : (fin s n).toInt = if s then -(n : Int) else (n : Int) := by
   cases s <;> rfl
@@ -315,8 +315,7 @@ theorem div_WF (x y : F64) : WF (div x y) := by
     | nan => trivial
     | inf t => exact WF_zero _
     | fin t b =>
-      show WF (if b = 0 then (if a = 0 then nan else inf (s != t))
-        else if a = 0 then fin (s != t) 0 else pack (s != t) (roundQ (a * unit) b))
+      simp only [div]
       by_cases h1 : b = 0
       · rw [if_pos h1]; by_cases h2 : a = 0
         · rw [if_pos h2]; trivial
@@ -353,7 +352,7 @@ theorem fma_WF (x y z : F64) : WF (fma x y z) := by
       cases z with
       | nan => trivial
       | inf u => trivial
-      | fin u c => exact roundSigned_WF _ _ unit_pos
+      | fin u c => exact roundSigned_WF _ _ (Nat.two_pow_pos 1074)
 
 /-! ## addition and subtraction of finite operands -/
 
@@ -483,6 +482,101 @@ theorem fma_exact {x y z : F64} (hx : x.is_finite = true) (hy : y.is_finite = tr
     rw [hq, rqI_mul_right _ unit_pos, rnI_of_repI hr]
   have := fma_spec hx hy hz (by rw [← natAbs_rqI, e]; exact natAbs_le_of_abs_le hm)
   rwa [e] at this
+
+/-! ## division of finite operands -/
+
+/-- signed correctly rounded quotient `RN(p / q)` of two integers (53 significant bits, unbounded exponent) -/
+def rdI (p q : Int) : Int := Int.sign p * Int.sign q * ((roundQ p.natAbs q.natAbs : Nat) : Int)
+
+@[simp] theorem rdI_zero_left (q : Int) : rdI 0 q = 0 := by simp [rdI]
+
+theorem natAbs_rdI {p q : Int} (hp : p ≠ 0) (hq : q ≠ 0) :
+    (rdI p q).natAbs = roundQ p.natAbs q.natAbs := by
+  unfold rdI
+  rw [Int.natAbs_mul, Int.natAbs_mul, Int.natAbs_sign_of_ne_zero hp, Int.natAbs_sign_of_ne_zero hq,
+    Int.natAbs_natCast]
+  simp
+
+theorem natAbs_rdI' (p : Int) {q : Int} (hq : q ≠ 0) :
+    (rdI p q).natAbs = roundQ p.natAbs q.natAbs := by
+  by_cases hp : p = 0
+  · subst hp; simp
+  · exact natAbs_rdI hp hq
+
+theorem abs_rdI (p : Int) {q : Int} (hq : q ≠ 0) :
+    |rdI p q| = ((roundQ p.natAbs q.natAbs : Nat) : Int) := by
+  rw [← natAbs_rdI' p hq, Int.natCast_natAbs]
+
+theorem repI_rdI (p : Int) {q : Int} (hq : q ≠ 0) : RepI (rdI p q) := by
+  unfold RepI; rw [natAbs_rdI' p hq]
+  exact roundQ_rep _ _ (Int.natAbs_pos.2 hq)
+
+/-- the rounded quotient is a multiple of its ulp `2^e`, `e = ⌊log2 (|p| / |q|)⌋ - 52` -/
+theorem rdI_dvd (p q : Int) :
+    (2 : Int) ^ (Nat.log2 (p.natAbs / q.natAbs) - 52) ∣ rdI p q := by
+  unfold rdI
+  apply Dvd.dvd.mul_left
+  rw [roundQ_eq]
+  push_cast
+  exact Dvd.intro_left _ rfl
+
+/-- half-ulp error bound of the rounded quotient, cross-multiplied -/
+theorem rdI_err (p : Int) {q : Int} (hq : q ≠ 0) :
+    2 * |rdI p q * q - p| ≤ |q| * 2 ^ (Nat.log2 (p.natAbs / q.natAbs) - 52) := by
+  have h := roundQ_abs_err p.natAbs q.natAbs (Int.natAbs_pos.2 hq)
+  rw [Int.natCast_mul, Int.natCast_natAbs, Int.natCast_natAbs, Int.natCast_pow] at h
+  have e : rdI p q * q - p
+      = Int.sign p * (((roundQ p.natAbs q.natAbs : Nat) : Int) * |q| - |p|) := by
+    unfold rdI
+    have h1 : Int.sign q * q = |q| := Int.sign_mul_self_eq_abs q
+    have h2 : Int.sign p * |p| = p := Int.sign_mul_abs p
+    calc Int.sign p * Int.sign q * ((roundQ p.natAbs q.natAbs : Nat) : Int) * q - p
+        = Int.sign p * ((roundQ p.natAbs q.natAbs : Nat) : Int) * (Int.sign q * q)
+            - Int.sign p * |p| := by rw [h2]; ring
+      _ = _ := by rw [h1]; ring
+  by_cases hp : p = 0
+  · subst hp
+    simp only [rdI_zero_left, Int.zero_mul, Int.sub_zero, abs_zero, Int.mul_zero]
+    positivity
+  · rw [e, abs_mul, Int.abs_sign_of_ne_zero hp, Int.one_mul]
+    exact h
+
+/-- `div_fin`: a quotient by a non-zero finite divisor whose rounded magnitude is in range is finite with
+value `RN(x·2^1074 / y)` -/
+theorem div_spec {x y : F64} (hx : x.is_finite = true) (hy : y.is_finite = true) (hy0 : y.toInt ≠ 0)
+    (h : roundQ (x.toInt * (unit : Int)).natAbs y.toInt.natAbs ≤ maxFin) :
+    (div x y).is_finite = true ∧ (div x y).toInt = rdI (x.toInt * (unit : Int)) y.toInt := by
+  obtain ⟨s, a, rfl⟩ := is_finite_iff.mp hx
+  obtain ⟨t, b, rfl⟩ := is_finite_iff.mp hy
+  have hb : b ≠ 0 := by
+    intro hb; apply hy0; rw [hb]; exact toInt_zero t
+  have hn : ((fin s a).toInt * (unit : Int)).natAbs = a * unit := by
+    rw [Int.natAbs_mul, natAbs_toInt_fin, Int.natAbs_natCast]
+  rw [hn, natAbs_toInt_fin] at h
+  simp only [div]
+  rw [if_neg hb]
+  by_cases ha : a = 0
+  · subst ha
+    rw [if_pos rfl]
+    refine ⟨rfl, ?_⟩
+    rw [toInt_zero, toInt_zero, Int.zero_mul, rdI_zero_left]
+  · rw [if_neg ha]
+    have hp : pack (s != t) (roundQ (a * unit) b) = fin (s != t) (roundQ (a * unit) b) := pack_fin h
+    change (pack (s != t) (roundQ (a * unit) b)).is_finite = true ∧
+      (pack (s != t) (roundQ (a * unit) b)).toInt = _
+    rw [hp]
+    refine ⟨rfl, ?_⟩
+    unfold rdI
+    rw [hn, natAbs_toInt_fin]
+    have hu : (0 : Int) < (unit : Int) := Int.natCast_pos.2 unit_pos
+    have ha' : (0 : Int) < (a : Int) := by omega
+    have hb' : (0 : Int) < (b : Int) := by omega
+    have s1 : Int.sign ((a : Int) * (unit : Int)) = 1 := Int.sign_eq_one_of_pos (Int.mul_pos ha' hu)
+    have s2 : Int.sign (-(a : Int) * (unit : Int)) = -1 :=
+      Int.sign_eq_neg_one_of_neg (by have := Int.mul_pos ha' hu; rw [Int.neg_mul]; omega)
+    have s3 : Int.sign (b : Int) = 1 := Int.sign_eq_one_of_pos hb'
+    have s4 : Int.sign (-(b : Int)) = -1 := Int.sign_eq_neg_one_of_neg (by omega)
+    cases s <;> cases t <;> simp only [toInt, s1, s2, s3, s4] <;> simp
 
 /-! ## finiteness helpers -/
 
